@@ -302,7 +302,7 @@ def generate(seed, tier='quick'):
                 blob += 1
     # rare: many siblings sharing one mangled prefix
     if r.random() < 0.04:
-        parent = r.choice(dirs)
+        parent = r.choice([d for d in dirs if o['rock'] or depth[d] < 7])
         cnt = r.choice((12, 40, 120))
         for i in range(cnt):
             name = 'collision_%04d.txt' % i
@@ -381,6 +381,10 @@ def expected_view(plan, src, view):
         if any(match(o['exclude'], c) for c in parts):
             continue
         base = parts[-1]
+        if not o['rock'] and len(parts) > 7:
+            # without Rock Ridge the tool leaves out what lies deeper than ISO9660 allows, and says so
+            out[p] = ('either',)
+            continue
         if v[0] == 'f':
             if view in ('iso', 'rockridge') and match(o['hide'], base):
                 continue
@@ -862,6 +866,10 @@ def iso_view_check(ctx, plan, exp, got, cat_key, stage):
     got = {p: (('f', 'empty') if v[0] == 'l' else v) for p, v in got.items()}
     diffs = []
     relocated = any(p.count('/') >= 7 for p, v in exp.items() if v[0] == 'd') or any(p.count('/') >= 8 for p in exp)
+    if any(v == ('either',) for v in exp.values()):
+        # entries the tool may leave out: only what must be there is counted
+        exp = {p: v for p, v in exp.items() if v != ('either',)}
+        relocated = True
     if relocated:
         # a relocated directory leaves a placeholder record (a "file" whose extent is the directory) in the plain view
         a = Counter(v for v in exp.values() if v[0] == 'f')
